@@ -88,8 +88,10 @@ def apply_ops(f0: bytes, ops, k: int, j: int = 0) -> bytes:
     return bytes(buf)
 
 
-def images(f0: bytes, ops):
-    """every crash image: (image bytes, (k, j)) with k = completed ops, j = bytes of op k landed."""
+def images(f0: bytes, ops, stride_above=None):
+    """every crash image: (image bytes, (k, j)) with k = completed ops, j = bytes of op k landed.
+    stride_above=N: inside a write longer than N bytes only the first and last 64 cut positions
+    and every 4099th in between are generated (stated as a reduced bound by the caller)."""
     import hashlib
 
     seen = set()
@@ -101,7 +103,10 @@ def images(f0: bytes, ops):
             yield base, (k, 0)
         if k < len(ops) and ops[k][0] == "w":
             _, off, data, _sz = ops[k]
-            for j in range(1, len(data)):
+            cuts = range(1, len(data))
+            if stride_above is not None and len(data) > stride_above:
+                cuts = sorted(set(range(1, 65)) | set(range(len(data) - 64, len(data))) | set(range(65, len(data) - 64, 4099)))
+            for j in cuts:
                 buf = bytearray(base)
                 if off > len(buf):
                     buf.extend(b"\0" * (off - len(buf)))
@@ -116,3 +121,9 @@ def images(f0: bytes, ops):
 def non_append_writes(ops):
     """writes that do not land exactly at the current end of file (in-place updates / holes)."""
     return [(i, o) for i, o in enumerate(ops) if o[0] == "w" and o[1] != o[3]]
+
+
+def extending_truncates(ops):
+    """truncate calls that GROW the file (space reserved before it is written): the reserved
+    region reads as zeros until the writes land, which a crash exposes"""
+    return [(i, o) for i, o in enumerate(ops) if o[0] == "t" and o[1] > o[3]]
